@@ -38,7 +38,7 @@ RULE = (
 )
 ASSUMPTIONS = [
     "argument x maps to request field x (rgb -> red, green, blue); the presence flag is the field has_x when the message declares one",
-    "legacy encodings are asserted only where the statement defines them: cover below 1.1 for stop=True, position 1.0 (OPEN) and 0.0 (CLOSE) given alone; climate preset below 1.5 -> has_legacy_away/legacy_away=(preset is AWAY); service INT below 1.3 -> legacy_int",
+    "legacy encodings are asserted only where the statement defines them: cover below 1.1 for stop=True (STOP, also when a position is passed along: a stop call's position is void), position 1.0 (OPEN) and 0.0 (CLOSE); calls that pass tilt or a fractional position without stop have no legacy encoding and are not asserted; climate preset below 1.5 -> has_legacy_away/legacy_away=(preset is AWAY); service INT below 1.3 -> legacy_int",
     "float arguments are compared after a float32 round trip; NaN is not used (message equality is undefined for it)",
     "siren duration is an integer passed through unchanged (seconds); only light transition_length / flash_length are second->millisecond conversions",
 ]
@@ -138,7 +138,9 @@ def expected_request(method: str, key: int, args: dict, api: tuple):
         pos = supplied.get("position")
         if "tilt" in supplied:
             return None, {}
-        if stop and pos is None:
+        if stop:
+            # stop together with a position: a cover cannot do both; the device itself drops the position of a stop
+            # call (ESPHome CoverCall validation), so the one legacy command that can be sent is STOP
             cmd = enum_num("LegacyCoverCommand", "_STOP")
         elif not stop and pos == 1.0:
             cmd = enum_num("LegacyCoverCommand", "_OPEN")
